@@ -162,6 +162,10 @@ def check(repo: Repo, run: Run) -> None:
     # J8: a native timedelta / datetime handed to json_to_cel (or produced by CEL arithmetic and then encoded) is
     # re-wrapped exactly, sign and sub-second part included (instances of C11.D3)
     run.borrow(repo, "C11", "C15.J8", lambda o: o["rule"] == "C11.D3", 1)
+    # J9: json_to_cel builds every string and every object key through StringType: the text arm keeps the code
+    # points it is given (a normalising constructor merges canonically equivalent keys and changes the document
+    # that comes back) -- instance shared with C08.P4
+    run.borrow(repo, "C08", "C15.J9", lambda o: o["rule"] == "C08.P4", 1)
     run.floor("C15.J5", check_absent_vs_falsy(repo, run, "C15.J5", ("BoolType", "IntType", "DoubleType", "StringType")), 4)
     # J1 -----------------------------------------------------------------
     targets = [("json_to_cel", j2c, param)]
@@ -307,9 +311,42 @@ def check(repo: Repo, run: Run) -> None:
     else:
         bad = [ast.unparse(p.value)[:40] for p in bool_paths if not native_bool(p.value)]
         run.ob("C15.J3", "to_python|bool", not bad, "BoolType is replaced by a native bool (never serialised as 1/0)" if not bad else f"a BoolType value is returned as `{bad[0]}`: JSON text 1/0 or a CEL object instead of true/false", ad.loc(tp))
+    def returned_as_is(cname: str):
+        """A returning path a non-empty container of class ``cname`` can take that hands the container itself back
+        (no element is converted).  Conditions that only look at the direct members (isinstance / any / all / len /
+        type over the container) cannot know what nested containers hold: recognised wrong.  A condition that calls
+        anything else (a deep scan helper) is not judged."""
+        for p in path_for(tp, tparam, cname):
+            if p.kind != "return" or p.value is None or ast.unparse(strip_cast(p.value)) != tparam:
+                continue
+            extra = [(t, pol) for t, pol in flat_conds(p.conds)
+                     if not (isinstance(t, ast.Call) and dotted(t.func) == "isinstance" and len(t.args) == 2 and ast.unparse(strip_cast(t.args[0])) == tparam)]
+            if not extra:
+                return p, True
+            empty = False
+            shallow = True
+            for t, pol in extra:
+                txt = ast.unparse(t)
+                if (txt == tparam and not pol) or (txt in (f"len({tparam}) == 0", f"not {tparam}") and pol) or (txt in (f"len({tparam})", f"len({tparam}) > 0") and not pol):
+                    empty = True
+                for c in ast.walk(t):
+                    if isinstance(c, ast.Call) and dotted(c.func) not in ("isinstance", "any", "all", "len", "type"):
+                        shallow = False
+            if empty:
+                continue
+            return p, shallow
+        return None
+
     for label, need, items in (("list", 1, False), ("map", 2, True)):
         ok = loops_converting(tp, tparam, "to_python", need, items)
-        if ok:
+        asis = returned_as_is("ListType" if label == "list" else "MapType")
+        if asis is not None and asis[1]:
+            run.ob("C15.J3", f"to_python|{label}", False,
+                   f"a non-empty {label} is returned as it is on the path `{asis[0].cond_text()[:90]}`: the test only sees the direct members, BoolType values inside nested "
+                   "containers are serialised as 1/0", ad.loc(tp))
+        elif asis is not None:
+            run.inconclusive("C15.J3", f"to_python|{label}", f"a {label} is returned as it is under `{asis[0].cond_text()[:60]}`")
+        elif ok:
             run.ob("C15.J3", f"to_python|{label}", True, f"{label}s recurse through to_python" + (" for keys and values" if items else ""), ad.loc(tp))
         else:
             # does the arm for this kind return the container unconverted?
